@@ -12,7 +12,7 @@ pub struct C14P;
 pub static C14: C14P = C14P;
 
 fn n_for(t: Tier) -> usize {
-    t.pick(4, 5)
+    t.pick(4, 6)
 }
 
 impl Prop for C14P {
